@@ -561,11 +561,14 @@ Fixpoint process (p : planner) (c : pctx) (st : pst) {struct p} : res (select * 
 Definition is_parser (s : stage) := match s with PParser _ _ => true | _ => false end.
 Definition is_label_filter (s : stage) := match s with PLabelFilter _ => true | _ => false end.
 
-(* simpleLabelOperation: label filters before the first parser *)
+(* stages that rewrite the labels column *)
+Definition is_relabel (s : stage) := match s with PParser _ _ | PDrop _ => true | _ => false end.
+
+(* simpleLabelOperation: label filters before the first parser or drop *)
 Fixpoint simple_ops (ppl : list stage) : list bool :=
   match ppl with
   | [] => []
-  | s :: r => if is_parser s then map (fun _ => false) ppl else is_label_filter s :: simple_ops r
+  | s :: r => if is_relabel s then map (fun _ => false) ppl else is_label_filter s :: simple_ops r
   end.
 (* labelsJoinIdx: None = -1 *)
 Fixpoint labels_join_idx (ppl : list stage) (simple : list bool) (i : nat) : option nat :=
@@ -581,10 +584,18 @@ Fixpoint labels_join_idx (ppl : list stage) (simple : list bool) (i : nat) : opt
     end
   | _, _ => None
   end.
-Fixpoint renew_after (ppl : list stage) : list bool :=
+Definition is_drop (s : stage) := match s with PDrop _ => true | _ => false end.
+(* renewMainAfter: the select is closed behind a run of parsers and behind a run of drops, and in front of a relabelling
+   stage that follows another kind of stage once the labels are joined *)
+Fixpoint renew_after (ppl : list stage) (lji : option nat) (i : nat) : list bool :=
   match ppl with
   | [] => []
-  | s :: r => (match r with [] => false | n :: _ => is_parser s && negb (is_parser n) end) :: renew_after r
+  | s :: r => (match r with
+               | [] => false
+               | n :: _ => if is_parser s then negb (is_parser n)
+                           else if is_drop s then negb (is_drop n)
+                           else is_relabel n && match lji with Some j => Nat.leb j i | None => false end
+               end) :: renew_after r lji (S i)
   end.
 
 Definition plan_ts (ms : list matcher) (ppl : list stage) (simple : list bool) : planner :=
@@ -622,7 +633,7 @@ Definition plan_log (sel : strsel) (finalize : bool) : option planner :=
   let simple := simple_ops ppl in
   let lji := labels_join_idx ppl simple 0 in
   let fp := plan_ts (sel_matchers sel) ppl simple in
-  match plan_spl ppl simple (renew_after ppl) 0 lji fp (PFingerprintFilter fp PMainInit) with
+  match plan_spl ppl simple (renew_after ppl lji 0) 0 lji fp (PFingerprintFilter fp PMainInit) with
   | None => None
   | Some spl =>
     let p1 := PMainOrderBy ["timestamp_ns"] spl in
@@ -771,7 +782,7 @@ Definition plan_metric (s : script) (finalize : bool) : option planner :=
        let simple := simple_ops ppl in
        let lji := labels_join_idx ppl simple 0 in
        let fp := plan_ts (sel_matchers sel) ppl simple in
-       do spl <- plan_spl ppl simple (renew_after ppl) 0 lji fp (PFingerprintFilter fp PMainInit);
+       do spl <- plan_spl ppl simple (renew_after ppl lji 0) 0 lji fp (PFingerprintFilter fp PMainInit);
        let '(order, lidx) := function_order s in
        do p <- apply_mfns (is_some lji) (is_some lidx) order spl;
        Some (p, is_some lji, is_some lidx, fp));
